@@ -252,6 +252,20 @@ fn fmt_cmd<F: Float>(cmd: &str, t: &[&str]) -> String {
             let v: F = minimal_lexical::parse_float(ib.iter(), fb.iter(), i(t[2]));
             format!("V {:016x}", v.to_bits())
         },
+        "PTH" => {
+            let (ib, fb) = (bytes_of(t[0]), bytes_of(t[1]));
+            let num = minimal_lexical::parse::verif_parse_number(&ib, &fb, i(t[2]));
+            if num.try_fast_path::<F>().is_some() {
+                "T F".to_string()
+            } else {
+                let fp = minimal_lexical::parse::moderate_path::<F>(&num);
+                if fp.exp < 0 {
+                    "T S".to_string()
+                } else {
+                    "T M".to_string()
+                }
+            }
+        },
         "PFA" => {
             let (ib, fb) = (bytes_of(t[0]), bytes_of(t[1]));
             let e = i(t[2]);
